@@ -136,3 +136,115 @@ example : chunkAt (List.replicate 120 'a') 1 ≠ chunkAt (List.replicate 60 'a' 
 example : chunkAt (List.replicate 120 'a') 0 = chunkAt (List.replicate 60 'a' ++ 'b' :: List.replicate 58 'a') 0 := by decide +kernel
 
 end Crs.Props
+
+namespace Crs.Props
+open Crs Crs.CompareView
+
+/-! ### the standard-output model and the status model agree -/
+
+theorem ruleOut_spec (E : Asm.Engine) (cfg : Asm.Config) (o1 o2 : Parser.Ord) (github : Bool) (t : Cli.Tree) (input id : Bytes) (k : Nat) :
+    match Cli.compareRule E cfg o1 o2 t input id k with
+    | .error _ => ruleOut E cfg o1 o2 github t input id k = none
+    | .ok b => ∃ txt, ruleOut E cfg o1 o2 github t input id k = some (txt, b) := by
+  unfold Cli.compareRule ruleOut
+  cases h1 : (Cli.runFile E cfg o1 o2 {} (Cli.fsOf t) input).2 with
+  | error e => simp
+  | ok re =>
+    cases h2 : Cli.rulesFileOf t id with
+    | none => simp
+    | some rp =>
+      cases h3 : Cli.lookup rp t with
+      | none => simp [h3]
+      | some rc =>
+        cases h4 : Update.readCurrentRegex rc id k with
+        | error e => simp [h3, h4]
+        | ok cur =>
+          by_cases h : (cur == re) = true
+          · simp [h3, h4, h]
+          · simp only [Bool.not_eq_true] at h
+            cases github <;> simp [h3, h4, h]
+
+/-- **C12 (single rule: what is printed and the status belong together).** The status the display model gives
+    `regex compare ARG` is the status of the command model (`C12_compare_single_status` speaks about it). -/
+theorem view_compareOut_status (E : Asm.Engine) (cfg : Asm.Config) (o1 o2 : Parser.Ord) (github : Bool) (t : Cli.Tree) (arg : Bytes) :
+    (compareOut E cfg o1 o2 github t arg).2 = (Cli.compareCmd E cfg o1 o2 t arg).ok := by
+  unfold compareOut Cli.compareCmd
+  cases h1 : Update.parseRuleId arg with
+  | error e => rfl
+  | ok ra =>
+    cases h2 : Cli.lookup (Cli.assemblyPath ra.fileName) t with
+    | none => simp [h2]
+    | some b =>
+      have h := ruleOut_spec E cfg o1 o2 github t b ra.id ra.chainOffset
+      cases h3 : Cli.compareRule E cfg o1 o2 t b ra.id ra.chainOffset with
+      | error e => rw [h3] at h; simp only [] at h; simp [h2, h3, h]
+      | ok bb =>
+        rw [h3] at h
+        obtain ⟨txt, h⟩ := h
+        cases bb <;> simp [h2, h3, h]
+
+/-- **C12 (--all: what is printed and the status belong together).** -/
+theorem view_walkOut_status (E : Asm.Engine) (cfg : Asm.Config) (o1 o2 : Parser.Ord) (github : Bool) (t : Cli.Tree)
+    (fs : List (Bytes × Bytes)) :
+    (Cli.compareAll E cfg o1 o2 github t fs).ok =
+      (!(walkOut E cfg o1 o2 github t fs).2.2 && !((walkOut E cfg o1 o2 github t fs).2.1 && github)) := by
+  induction fs with
+  | nil => simp [Cli.compareAll, walkOut]
+  | cons x xs ih =>
+    obtain ⟨p, b⟩ := x
+    unfold Cli.compareAll walkOut
+    by_cases hp : Cli.isFormatTarget p = true
+    · simp only [hp, if_true]
+      cases h1 : Cli.ruleOfFileName (Cli.baseName p) with
+      | none => exact ih
+      | some o =>
+        cases o with
+        | none => simp
+        | some idk =>
+          obtain ⟨id, k⟩ := idk
+          have h := ruleOut_spec E cfg o1 o2 github t b id k
+          cases h3 : Cli.compareRule E cfg o1 o2 t b id k with
+          | error e => rw [h3] at h; simp only [] at h; simp [h, h3]
+          | ok bb =>
+            rw [h3] at h
+            obtain ⟨txt, h⟩ := h
+            cases bb
+            · simp only [h, h3, ih]
+              cases github <;> simp
+            · simp only [h, h3, ih]
+              cases github <;> simp
+    · simp only [hp, Bool.false_eq_true, if_false]
+      exact ih
+
+theorem view_compareAllOut_status (E : Asm.Engine) (cfg : Asm.Config) (o1 o2 : Parser.Ord) (github : Bool) (t : Cli.Tree) :
+    (compareAllOut E cfg o1 o2 github t).2 = (Cli.compareAll E cfg o1 o2 github t t).ok := by
+  rw [view_walkOut_status]
+  unfold compareAllOut
+  generalize walkOut E cfg o1 o2 github t t = w
+  obtain ⟨o, d, f⟩ := w
+  cases f <;> cases d <;> cases github <;> simp
+
+/-- **C12 (a change is always reported).** In text mode, when `regex compare ARG` finds the stored operand different
+    from the generated regex, its standard output begins with `Regex of ID has changed!`. -/
+theorem view_change_is_reported (E : Asm.Engine) (cfg : Asm.Config) (o1 o2 : Parser.Ord) (t : Cli.Tree) (input id : Bytes) (k : Nat)
+    (h : Cli.compareRule E cfg o1 o2 t input id k = .ok false) :
+    ∃ rest, ruleOut E cfg o1 o2 false t input id k = some (b!"Regex of " ++ id ++ b!" has changed!\n" ++ rest, false) := by
+  unfold Cli.compareRule at h
+  unfold ruleOut
+  cases h1 : (Cli.runFile E cfg o1 o2 {} (Cli.fsOf t) input).2 with
+  | error e => simp [h1] at h
+  | ok re =>
+    cases h2 : Cli.rulesFileOf t id with
+    | none => simp [h1, h2] at h
+    | some rp =>
+      cases h3 : Cli.lookup rp t with
+      | none => simp [h1, h2, h3] at h
+      | some rc =>
+        cases h4 : Update.readCurrentRegex rc id k with
+        | error e => simp [h1, h2, h3, h4] at h
+        | ok cur =>
+          simp only [h1, h2, h3, h4, Except.ok.injEq] at h
+          refine ⟨renderRows (nChunks cur re) 0 false (rows cur re) ++ b!"\n", ?_⟩
+          simp [h3, h4, h, changedText]
+
+end Crs.Props
